@@ -218,7 +218,7 @@ func (v *visitor) VisitTextLiteral(ctx *gen.TextLiteralContext) any {
 
 // VisitNumberLiteral deals with numbers like 123 or 1.5
 func (v *visitor) VisitNumberLiteral(ctx *gen.NumberLiteralContext) any {
-	return &NumberLiteral{Value: types.RequireXNumberFromString(ctx.GetText())}
+	return &NumberLiteral{Value: types.RequireXNumberFromString(ctx.GetText()), text: ctx.GetText()}
 }
 
 // VisitTrue deals with the `true` reserved word
